@@ -399,7 +399,16 @@ class SymInt:
         return SymQ(self.e, int(o))
 
     def __rtruediv__(self, o):
-        raise HarnessError("symbolic divisor")
+        # numeric / proxy: only for a proxy that is a numeral (a concrete coefficient wrapped to keep arrays homogeneous)
+        k = z3.simplify(self.e)
+        if not z3.is_int_value(k):
+            raise HarnessError("symbolic divisor")
+        num = _z(o)
+        if num is None:
+            raise HarnessError("non-integral numerator")
+        if k.as_long() == 0:
+            return SymDivZero(num)
+        return SymQ(num, k.as_long())
 
     # ---- comparisons
     def _cmp(self, o, f):
@@ -503,6 +512,15 @@ class SymQ:
 
     def __neg__(self):
         return SymQ(-self.num, self.den)
+
+    def __mul__(self, o):
+        if isinstance(o, SymQ):
+            return SymQ(self.num * o.num, self.den * o.den)
+        z = _z(o)
+        if z is None:
+            return NotImplemented
+        return SymQ(self.num * z, self.den)
+    __rmul__ = __mul__
 
     def __floor__(self):
         n, d = (self.num, self.den) if self.den > 0 else (-self.num, -self.den)
